@@ -63,7 +63,10 @@ Proof.
       destruct (j =? i) eqn:EJ.
       * apply Nat.eqb_eq in EJ. inversion Hj; subst. eauto.
       * eauto.
-    + intros h0 i0 Hh. rewrite upd_length. eauto.
+    + intros h0 i0 Hh. destruct (I2 h0 i0 Hh) as (k1 & c1 & E1'). rewrite nth_error_upd, Hlt, andb_true_r.
+      destruct (i0 =? i) eqn:EJ.
+      * apply Nat.eqb_eq in EJ. subst i0. rewrite E in E1'. inversion E1'; subst. eauto.
+      * eauto.
   - intros ND j1 j2 h1 h2 k0 c1 c2 E1 E2 L1 L2.
     rewrite nth_error_upd, Hlt, andb_true_r in E1, E2.
     assert (F : forall j hh cc, (if j =? i then Some (h, k, c') else nth_error l j) = Some (hh, k0, cc) -> exists_ cc = true ->
@@ -167,10 +170,12 @@ Proof.
         intros X. apply hash_inj in X. symmetry in X. revert X. eapply ABS; eauto.
       * rewrite nth_error_app2 in E by auto. destruct (j - length (to_list (pv v))) as [|[|?]] eqn:EJ; try discriminate.
         inversion E; subst. cbn [p NewPair fst]. rewrite idx_get_set_same. f_equal. lia.
-    + intros h i0 Hh. rewrite app_length. cbn [length]. cbn [p NewPair fst] in Hh.
+    + intros h i0 Hh. cbn [p NewPair fst] in Hh.
       destruct (N.eq_dec (hash key) h) as [<-|NE].
-      * rewrite idx_get_set_same in Hh. inversion Hh. lia.
-      * rewrite idx_get_set_other in Hh by auto. apply I2 in Hh. lia.
+      * rewrite idx_get_set_same in Hh. inversion Hh; subst i0. rewrite LEN, nth_error_app2, Nat.sub_diag by lia.
+        exists key, val. reflexivity.
+      * rewrite idx_get_set_other in Hh by auto. destruct (I2 _ _ Hh) as (k1 & c1 & E1).
+        exists k1, c1. rewrite nth_error_app1; auto. apply nth_error_Some. congruence.
     + intros j1 j2 h1 h2 k c1 c2 E1 E2 L1 L2.
       destruct (Nat.lt_ge_cases j1 (length (to_list (pv v)))) as [H1|H1];
       destruct (Nat.lt_ge_cases j2 (length (to_list (pv v)))) as [H2|H2].
@@ -212,9 +217,12 @@ Proof.
       * inversion Hj; subst. discriminate.
       * apply Nat.eqb_neq in EJ. rewrite idx_get_del_other; [eauto|].
         intros X. apply hash_inj in X. subst k0. apply EJ. eapply ND; eauto.
-    + intros h0 i0 Hh. rewrite upd_length. destruct (N.eq_dec (hash k) h0) as [<-|NE].
+    + intros h0 i0 Hh. destruct (N.eq_dec (hash k) h0) as [<-|NE].
       * rewrite idx_get_del_same in Hh. discriminate.
-      * rewrite idx_get_del_other in Hh by auto. eauto.
+      * rewrite idx_get_del_other in Hh by auto. destruct (I2 _ _ Hh) as (k1 & c1 & E1).
+        rewrite nth_error_upd, Hlt, andb_true_r. destruct (i0 =? i) eqn:EJ.
+        -- apply Nat.eqb_eq in EJ. subst i0. rewrite E in E1. inversion E1; subst. contradiction.
+        -- eauto.
     + intros j1 j2 h1 h2 k0 c1 c2 E1 E2 L1 L2.
       rewrite nth_error_upd, Hlt, andb_true_r in E1, E2.
       destruct (j1 =? i); [inversion E1; subst; discriminate|].
